@@ -194,6 +194,10 @@ func (m *Map[K, V]) ToMap() map[K]V {
 func ToMapRecursive(src any) any {
 	switch tsrc := src.(type) {
 	case *Map[string, any]:
+		if tsrc == nil {
+			// Like ToMap: a nil map converts to a nil map.
+			return map[string]any(nil)
+		}
 		um := make(map[string]any, len(tsrc.index))
 		tsrc.Range(func(k string, v any) error {
 			um[k] = ToMapRecursive(v)
